@@ -13,7 +13,7 @@ Lemma handle_behind c now st g p s st' oc :
   (u_srcs st' = u_srcs st \/ u_srcs st' = expire now (p_cid p) (u_srcs st)).
 Proof.
   intros (Hnd & _) Hi Hc Hs Hp Hb H.
-  destruct (handle_cases c now st p) as [E|(_ & _ & frame & sc0 & _ & E)]; rewrite E in H.
+  destruct (handle_cases c now st p) as [E|(_ & _ & frame & sc0 & _ & _ & E)]; rewrite E in H.
   - injection H as <- <-. cbn. repeat split; auto.
   - rewrite (track_behind now p _ (u_active st) s Hnd Hi Hc Hs Hp Hb) in H. cbn [apply_track] in H.
     injection H as <- <-. cbn. repeat split; auto.
@@ -28,7 +28,7 @@ Lemma handle_full c now st p st' oc :
   (u_srcs st' = u_srcs st \/ u_srcs st' = expire now (p_cid p) (u_srcs st)).
 Proof.
   intros Hn Hl Hp H.
-  destruct (handle_cases c now st p) as [E|(_ & _ & frame & sc0 & _ & E)]; rewrite E in H.
+  destruct (handle_cases c now st p) as [E|(_ & _ & frame & sc0 & _ & _ & E)]; rewrite E in H.
   - injection H as <- <-. cbn. repeat split; auto.
   - rewrite track_full in H; auto.
     + cbn [apply_track] in H. injection H as <- <-. cbn. repeat split; auto.
@@ -46,7 +46,7 @@ Lemma handle_terminate c now st g p s st' oc :
     (forall x, In x (l1 ++ l2) -> s_cid x <> p_cid p).
 Proof.
   intros (Hnd & _) Hi Hc T Hs Hp Hb H.
-  destruct (handle_cases c now st p) as [E|(_ & _ & frame & sc0 & _ & E)]; rewrite E in H.
+  destruct (handle_cases c now st p) as [E|(_ & _ & frame & sc0 & _ & _ & E)]; rewrite E in H.
   - injection H as <- <-. now left.
   - right. destruct (track_terminate now p _ (u_active st) s Hnd Hi Hc T Hs Hp Hb) as (l1 & l2 & Ee & Et).
     rewrite Et in H. cbn [apply_track] in H. injection H as <- <-. cbn [u_srcs u_buf].
